@@ -57,6 +57,8 @@ type c40Prog struct {
 	DataErr [2]bool `json:"data_err"` // the last bytes come together with the terminating error (abrupt mode only: it needs one read of look-ahead)
 	// the pipe-facing stream also has a CloseWrite method (TCP / unix / TLS connection shape)
 	HalfClose [2]bool `json:"has_close_write"`
+	// Close of the pipe-facing stream takes this long to return
+	SlowCloseMS [2]int `json:"slow_close_ms"`
 }
 
 var errC40Injected = errors.New("injected stream failure")
@@ -65,6 +67,9 @@ type c40Stream struct {
 	inner io.ReadWriteCloser
 	rd    io.Reader // what Read reads from (inner, or a look-ahead reader around it)
 	cap   int
+	// Close returns only after this long
+	slowClose time.Duration
+	closed    atomic.Int32 // Close calls that have returned
 	// a Write on the underlying stream failed before the pipe had closed this stream
 	innerWriteErr atomic.Bool
 	name          string
@@ -136,10 +141,18 @@ func (s *c40Stream) Close() error {
 	if s.onClose != nil {
 		s.onClose()
 	}
+	var err error
 	if s.inner != nil {
-		return s.inner.Close()
+		err = s.inner.Close()
 	}
-	return nil
+	if s.slowClose > 0 {
+		// a Close that takes a while to return (TLS close-notify, QUIC stream reset): whoever is
+		// told that the pipe is finished must find BOTH streams closed - Close has RETURNED on
+		// each - however slow the first one was
+		time.Sleep(s.slowClose)
+	}
+	s.closed.Add(1)
+	return err
 }
 
 // c40HalfCloser is a c40Stream that also offers CloseWrite, as TCP, unix and TLS connections
@@ -305,6 +318,9 @@ func runC40(p c40Prog) c40Run {
 	// its own (like *net.TCPConn, *net.UnixConn, *tls.Conn); what Pipe owes its caller is the same
 	var ps [2]io.ReadWriteCloser
 	for i := range ps {
+		if p.SlowCloseMS[i] > 0 {
+			str[i].slowClose = time.Duration(p.SlowCloseMS[i]) * time.Millisecond
+		}
 		ps[i] = str[i]
 		if p.HalfClose[i] {
 			ps[i] = &c40HalfCloser{c40Stream: str[i]}
@@ -415,8 +431,11 @@ func runC40(p c40Prog) c40Run {
 	}
 	// 2. at that moment both streams have been closed by the pipe
 	c0, c1 := str[0].closes.Load(), str[1].closes.Load()
+	d0, d1 := str[0].closed.Load(), str[1].closed.Load()
 	if c0 < 1 || c1 < 1 {
 		res.viols = append(res.viols, c39Viol{"stream-not-closed-at-completion", fmt.Sprintf("the pipe reported completion with Close calls x2=%d y1=%d", c0, c1)})
+	} else if d0 < 1 || d1 < 1 {
+		res.viols = append(res.viols, c39Viol{"stream-not-closed-at-completion", fmt.Sprintf("the pipe reported completion while a Close was still running: Close has returned x2=%d y1=%d times (Close takes %d / %d ms)", d0, d1, p.SlowCloseMS[0], p.SlowCloseMS[1])})
 	}
 	// 3. users wind down (their ends are unblocked by the closes above)
 	done := make(chan struct{})
@@ -568,6 +587,7 @@ func genC40(t *rapid.T) c40Prog {
 	p.Ender = rapid.IntRange(0, 1).Draw(t, "ender")
 	for i := range p.HalfClose {
 		p.HalfClose[i] = rapid.IntRange(0, 2).Draw(t, "hasCloseWrite") == 0
+		p.SlowCloseMS[i] = rapid.SampledFrom([]int{0, 0, 0, 3, 12}).Draw(t, "slowCloseMs")
 	}
 	for i := range p.ReadCap { // short reads from the pipe-facing streams
 		if rapid.IntRange(0, 2).Draw(t, "readCap?") == 0 {
